@@ -58,6 +58,7 @@ class HsRun:
         self.stores = {}
         self.raises = np.zeros(self.n, dtype=bool)
         self.ser_sel = None
+        self.closures = {st.name for st in fn.node.body if isinstance(st, ast.FunctionDef)}
         res = norm.Resolver(ctx.program, fn.module, fn.cls)
         self.vec = Vec(self.n, res, self.attr, self.call, self.store)
 
@@ -116,7 +117,7 @@ class HsRun:
             return np.isin(v, SUPPORTED)
         if nm == "self.parse_handshake":
             return self.parse_result
-        if nm == "send_response":
+        if nm in self.closures and len(c.args) == 2:  # the reply-writing helper closure (decided separately: octet = a << 4 | b & 15)
             a = [vec.arr(vec.eval(x, mask)) for x in c.args]
             self.writes.append((("response", a[0], a[1]), mask.copy()))
             return None
@@ -178,10 +179,22 @@ def rule_handshake_tables(ctx):
         # send_response closure: b2 = lexp << 4 | (ser_id & 0x0F)
         clos = [s for s in pf.node.body if isinstance(s, ast.FunctionDef)]
         if clos:
-            b2 = [s for s in walk_no_defs(clos[0]) if isinstance(s, ast.Assign) and norm.text(s.targets[0]) == "b2"]
-            ctx.ob("asyncio server: reply octet = exp << 4 | (serializer & 0x0F)", len(b2) == 1 and norm.text(b2[0].value) == "lexp << 4 | ser_id & 15", f"{[norm.text(s.value) for s in b2]}", pf.loc())
+            from .common import eval_finite
+            cfi = [x for x in pf.nested_list() if x.node is clos[0]][0]
             wr = [c for c in calls_in(clos[0]) if norm.text(c.func) == "self.transport.write"]
-            ctx.ob("asyncio server: reply is [0x7F, octet2, 0, 0]", len(wr) == 1 and norm.text(wr[0].args[0]) == "bytes(bytearray([MAGIC_BYTE, b2, 0, 0]))", "reply layout changed", pf.loc())
+            lists = [x for c in wr for x in ast.walk(c) if isinstance(x, ast.List) and len(x.elts) == 4]
+            okr, why = False, "reply layout changed"
+            if len(wr) == 1 and len(lists) == 1 and len(cfi.params()) == 2:
+                p0, p1 = cfi.params()
+                A0, A1 = np.meshgrid(np.arange(16), np.arange(256), indexing="ij")
+                A0, A1 = A0.ravel(), A1.ravel()
+                try:
+                    vals = [eval_finite(ctx.program, cfi, e, {p0: A0, p1: A1}, len(A0)) for e in lists[0].elts]
+                    okr = bool(np.all(vals[0] == 0x7F) and np.all(vals[1] == ((A0 << 4) | (A1 & 15))) and np.all(vals[2] == 0) and np.all(vals[3] == 0))
+                    why = "octets written are not [0x7F, first << 4 | second & 15, 0, 0]"
+                except AnalysisError as e:
+                    why = str(e)
+            ctx.ob("asyncio server: reply is [0x7F, exp << 4 | (serializer & 0x0F), 0, 0] [16 x 256 argument pairs]", okr, why, pf.loc())
         run2.vec.run(stm)
         raised = parse_raised | run2.vec.raised
         # caller: data_received catches HandshakeError -> protocol_error -> close, else attaches
@@ -456,6 +469,28 @@ def rule_ids(ctx):
         ctx.ob(f"{q.split('.')[-3]}.{q.split('.')[-2]}: serializer table keyed by RAWSOCKET_SERIALIZER_ID", okk, "key changed", fn.loc())
 
 
+def rule_refusal_exceptions(ctx):
+    """The exception that carries a handshake refusal to data_received (where it is turned into a closed transport) is built from
+    octets the peer chose: building it must not raise something else (which no handler on that path catches)."""
+    ctx.rule("C13.3-fail-closed-without-escaping")
+    an = get_analysis(ctx)
+    cg = _cg(ctx)
+    m = ctx.program.module(AIO)
+    for cname, c in m.classes.items():
+        bases = [norm.text(b) for b in c.node.bases]
+        if not any(b.endswith("Exception") or b.endswith("Error") for b in bases):
+            continue
+        init = c.methods.get("__init__")
+        if init is None:
+            continue
+        ctx.analysed(init)
+        ef = ExcFlow(ctx.program, an, callgraph=cg, extra_seeds=set(init.params()[1:]), stop=set(), safe={})
+        sites = ef.may_raise(init)
+        ctx.ob(f"{cname}.__init__ cannot raise while the refusal is being reported", not sites,
+               "; ".join(f"{s_.exc} from `{s_.what}`" for s_ in sites[:3]) + ": the peer picks the error code, the resulting exception is not the refusal "
+               "exception data_received handles, so it escapes and the transport is never closed", init.loc())
+
+
 def rule_remainder(ctx):
     """Octets arriving behind the 4-octet handshake (same read or a later one) reach the frame parser exactly once, in order."""
     from ..core.terms import TermEval, show
@@ -508,6 +543,7 @@ def _subterms13(t):
 
 def run(ctx):
     rule_remainder(ctx)
+    rule_refusal_exceptions(ctx)
     rule_handshake_tables(ctx)
     rule_requests(ctx)
     rule_abort_siblings(ctx)
